@@ -49,7 +49,7 @@ def _parallel_mc(c, jobs):
     def one(j):
         kind, cfg, inv, workers = j
         if kind == 'design':
-            return vlib.mc('LibraryListing', cfg, expect='pass', actions_required=ACTIONS, workers=workers, heap='3g')
+            return vlib.mc('LibraryListing', cfg, expect='pass', actions_required=ACTIONS, workers=workers, heap='6g', timeout=1500)
         return vlib.mc('LibraryListing', cfg, expect='fail', expect_inv=inv, workers=workers, heap='2g')
     with concurrent.futures.ThreadPoolExecutor(max_workers=4) as ex:
         res = list(ex.map(one, jobs))
@@ -128,10 +128,9 @@ def run(tier):
         vlib.sany(m)
     jobs = [('design', 'MC_LibraryListing_%s.cfg' % n, None, 4) for n in DESIGN_Q]
     jobs += [('neg', 'MC_LibraryListing_%s.cfg' % n, inv, 2) for n, inv in NEG]
-    _parallel_mc(c, jobs)
     if not q:
-        for n in DESIGN_T:
-            c.mc_pass('LibraryListing', 'MC_LibraryListing_%s.cfg' % n, actions_required=ACTIONS, workers=8, heap='8g', timeout=1500)
+        jobs = [('design', 'MC_LibraryListing_%s.cfg' % n, None, 4) for n in DESIGN_T] + jobs      # the long ones first
+    _parallel_mc(c, jobs)
     # spec -> code: TLC enumerates the listings of the bounded model; a seeded sample (quick) / all (thorough) are replayed
     rng = random.Random(c.seed)
     chosen, pool_n = [], 0
